@@ -95,8 +95,8 @@ func c04RunPath(cfg c04Config, id string, steps []c04Step, foreign string, share
 			}
 		}
 		if ts != nil {
-			ts.CloseClientConnections()
-			ts.Close()
+			closeClientConns(ts)
+			closeTS(ts)
 		}
 	}()
 	ctx := context.Background()
@@ -249,7 +249,7 @@ func init() {
 		other := httptest.NewServer(c04NewServer(c04Config{Mode: "stateful", Get: true, PostSSE: true}).Handler())
 		fr := peer.PostJSON(context.Background(), other.URL+"/mcp", nil, peer.InitRequest(1), false)
 		foreign := fr.Header.Get("Mcp-Session-Id")
-		other.Close()
+		closeTS(other)
 		if foreign == "" {
 			foreign = randHex(16)
 		}
@@ -270,8 +270,8 @@ func init() {
 				}(i, p.ID, p.Steps)
 			}
 			wg.Wait()
-			ts.CloseClientConnections()
-			ts.Close()
+			closeClientConns(ts)
+			closeTS(ts)
 			out.Results = results
 		} else {
 			for _, p := range in.Paths {
